@@ -74,6 +74,8 @@ def verify_function(tu, fn_name, contracts, int_mode='bv', num_mode='real', pref
     con = contracts.get(fn_name, {})
     exe = Exe(tu, int_mode, num_mode, contracts, prefix)
     exe.check_arith = check_arith
+    exe.drop_dead_ptr_locals = bool(con.get('drop_dead_ptr_locals'))
+    exe.ghost_tags = bool(con.get('ghost_tags'))
     exe.ob_filter = ob_filter
     if hooks:
         exe.hooks.update(hooks)
@@ -169,7 +171,7 @@ def verify_function(tu, fn_name, contracts, int_mode='bv', num_mode='real', pref
         bad = []
         for (oid, path) in writes:
             o = exe.obj_by_id.get(oid)
-            if o is None or o.kind in ('local', 'string') or path is None:
+            if o is None or o.kind in ('local', 'string') or path is None or '$tag' in path:
                 continue
             if oid > first_new_id and not o.meta.get('view_of_pre'):
                 continue      # object first reached through a location this function (re)assigned
